@@ -256,46 +256,19 @@ theorem single_first_max_rev (l : List (Item κ α)) :
         · exact hq q hqm
         · rw [List.mem_singleton.1 hqm]; exact not_lt.1 hy
 
-/-! ### the answer: items with a positive key -/
-
-/-- counting: with `kept`/`dropped` as in the invariant and a least key `zero`, the number of kept
-items with a positive key is `min b (#positive candidates)` -/
-theorem emit_length {b : Nat} {cands kept : List (Item κ α)} (h : Inv b cands kept) (zero : κ) :
-    (emit zero kept).length = min b (emit zero cands).length := by
-  obtain ⟨dropped, hp, hl, ho⟩ := h
-  have hlen := hp.length_eq
-  have hf := (hp.filter (fun it => decide (zero < it.key))).length_eq
-  simp only [List.filter_append, List.length_append] at hf hlen
-  unfold emit
-  by_cases hd : ∃ d ∈ dropped, zero < d.key
-  · obtain ⟨d, hdm, hdz⟩ := hd
-    have hall : kept.filter (fun it => decide (zero < it.key)) = kept := by
-      rw [List.filter_eq_self]
-      intro k hk
-      exact decide_eq_true (lt_of_lt_of_le hdz (ho d hdm k hk))
-    have hdpos : 0 < (dropped.filter (fun it => decide (zero < it.key))).length := by
-      apply List.length_pos_of_mem (a := d)
-      exact List.mem_filter.2 ⟨hdm, decide_eq_true hdz⟩
-    have hdl : 0 < dropped.length := List.length_pos_of_mem hdm
-    rw [hall] at hf ⊢
-    omega
-  · have hnil : dropped.filter (fun it => decide (zero < it.key)) = [] := by
-      rw [List.filter_eq_nil_iff]
-      intro d hdm hdz
-      exact hd ⟨d, hdm, of_decide_eq_true hdz⟩
-    rw [hnil] at hf
-    have hle := List.length_filter_le (fun it : Item κ α => decide (zero < it.key)) kept
-    simp only [List.length_nil] at hf
-    omega
-
 /-! ### the whole `Wrs` value: both families and the counters -/
 
-/-- the items of the candidates of record type `t`, in arrival order -/
+/-- the candidates of record type `t` (any weight), in arrival order: what the counter counts -/
+def seenOf (t : Nat) (cands : List (Cand κ α)) : List (Cand κ α) :=
+  cands.filter (fun c => decide (c.qtype = t))
+
+/-- the items of the positive-weight candidates of record type `t`, in arrival order: what `Add`
+samples -/
 def candsOf (t : Nat) (cands : List (Cand κ α)) : List (Item κ α) :=
-  (cands.filter (fun c => decide (c.qtype = t))).map (·.item)
+  ((seenOf t cands).filter (fun c => decide (c.weight ≠ 0))).map (·.item)
 
 def stepC (w : State κ α) (c : Cand κ α) : State κ α :=
-  match w.add c.qtype c.item with
+  match w.add c.qtype c.weight c.item with
   | .ok w' => w'
   | .error _ => w
 
@@ -307,48 +280,73 @@ theorem foldl_stepC (cands : List (Cand κ α)) : ∀ w : State κ α,
     (cands.foldl stepC w).maxAnswers = w.maxAnswers ∧
     (cands.foldl stepC w).v4 = (candsOf typeA cands).foldl (addFam w.maxAnswers) w.v4 ∧
     (cands.foldl stepC w).v6 = (candsOf typeAAAA cands).foldl (addFam w.maxAnswers) w.v6 ∧
-    (cands.foldl stepC w).v4Count = (w.v4Count + (candsOf typeA cands).length) % 4294967296 ∧
-    (cands.foldl stepC w).v6Count = (w.v6Count + (candsOf typeAAAA cands).length) % 4294967296 := by
+    (cands.foldl stepC w).v4Count = (w.v4Count + (seenOf typeA cands).length) % 4294967296 ∧
+    (cands.foldl stepC w).v6Count = (w.v6Count + (seenOf typeAAAA cands).length) % 4294967296 := by
   induction cands with
   | nil =>
     intro w h4 h6
-    simp only [List.foldl_nil, candsOf, List.filter_nil, List.map_nil, List.length_nil, Nat.add_zero]
+    simp only [List.foldl_nil, candsOf, seenOf, List.filter_nil, List.map_nil, List.length_nil,
+      Nat.add_zero]
     and_intros <;> first | trivial | rfl | omega
   | cons c cands ih =>
     intro w h4 h6
     simp only [List.foldl_cons]
     by_cases hA : c.qtype = typeA
-    · have hs : stepC w c = { w with v4Count := (w.v4Count + 1) % 4294967296,
-                                     v4 := addFam w.maxAnswers w.v4 c.item } := by
-        simp [stepC, State.add, hA, typeA, typeAAAA]
-      have hne : ¬ c.qtype = typeAAAA := by rw [hA]; decide
-      obtain ⟨i1, i2, i3, i4, i5⟩ := ih (stepC w c) (by rw [hs]; simp only; omega) (by rw [hs]; exact h6)
-      rw [i1, i2, i3, i4, i5, hs]
-      simp only [candsOf, List.filter_cons, hA, decide_true, if_true,
-        List.map_cons, List.foldl_cons, List.length_cons]
-      and_intros <;> first | trivial | rfl | omega
-    · by_cases hB : c.qtype = typeAAAA
-      · have hs : stepC w c = { w with v6Count := (w.v6Count + 1) % 4294967296,
-                                       v6 := addFam w.maxAnswers w.v6 c.item } := by
-          simp [stepC, State.add, hB, typeA, typeAAAA]
-        obtain ⟨i1, i2, i3, i4, i5⟩ := ih (stepC w c) (by rw [hs]; exact h4) (by rw [hs]; simp only; omega)
+    · have hne : ¬ c.qtype = typeAAAA := by rw [hA]; decide
+      by_cases hw : c.weight = 0
+      · have hs : stepC w c = { w with v4Count := (w.v4Count + 1) % 4294967296 } := by
+          simp [stepC, State.add, hA, hw, typeA, typeAAAA]
+        obtain ⟨i1, i2, i3, i4, i5⟩ :=
+          ih (stepC w c) (by rw [hs]; simp only; omega) (by rw [hs]; exact h6)
         rw [i1, i2, i3, i4, i5, hs]
-        simp only [candsOf, List.filter_cons, hB, decide_true, if_true,
+        simp only [candsOf, seenOf, List.filter_cons, hA, hw, decide_true, decide_false,
+          ne_eq, not_true_eq_false, if_true, Bool.false_eq_true, if_false, List.length_cons]
+        and_intros <;> first | trivial | rfl | omega
+      · have hs : stepC w c = { w with v4Count := (w.v4Count + 1) % 4294967296,
+                                       v4 := addFam w.maxAnswers w.v4 c.item } := by
+          simp [stepC, State.add, hA, hw, typeA, typeAAAA]
+        obtain ⟨i1, i2, i3, i4, i5⟩ :=
+          ih (stepC w c) (by rw [hs]; simp only; omega) (by rw [hs]; exact h6)
+        rw [i1, i2, i3, i4, i5, hs]
+        simp only [candsOf, seenOf, List.filter_cons, hA, hw, decide_true,
+          ne_eq, not_false_eq_true, if_true,
           List.map_cons, List.foldl_cons, List.length_cons]
         and_intros <;> first | trivial | rfl | omega
+    · by_cases hB : c.qtype = typeAAAA
+      · by_cases hw : c.weight = 0
+        · have hs : stepC w c = { w with v6Count := (w.v6Count + 1) % 4294967296 } := by
+            simp [stepC, State.add, hB, hw, typeA, typeAAAA]
+          obtain ⟨i1, i2, i3, i4, i5⟩ :=
+            ih (stepC w c) (by rw [hs]; exact h4) (by rw [hs]; simp only; omega)
+          rw [i1, i2, i3, i4, i5, hs]
+          simp only [candsOf, seenOf, List.filter_cons, hB, hw, decide_true, decide_false,
+            ne_eq, not_true_eq_false, if_true, Bool.false_eq_true, if_false, List.length_cons]
+          and_intros <;> first | trivial | rfl | omega
+        · have hs : stepC w c = { w with v6Count := (w.v6Count + 1) % 4294967296,
+                                         v6 := addFam w.maxAnswers w.v6 c.item } := by
+            simp [stepC, State.add, hB, hw, typeA, typeAAAA]
+          obtain ⟨i1, i2, i3, i4, i5⟩ :=
+            ih (stepC w c) (by rw [hs]; exact h4) (by rw [hs]; simp only; omega)
+          rw [i1, i2, i3, i4, i5, hs]
+          simp only [candsOf, seenOf, List.filter_cons, hB, hw, decide_true,
+            ne_eq, not_false_eq_true, if_true,
+            List.map_cons, List.foldl_cons, List.length_cons]
+          and_intros <;> first | trivial | rfl | omega
       · have hs : stepC w c = w := by
           simp [stepC, State.add, hA, hB]
         obtain ⟨i1, i2, i3, i4, i5⟩ := ih (stepC w c) (by rw [hs]; exact h4) (by rw [hs]; exact h6)
         rw [i1, i2, i3, i4, i5, hs]
-        simp only [candsOf, List.filter_cons, hA, hB, decide_false, Bool.false_eq_true, if_false]
+        simp only [candsOf, seenOf, List.filter_cons, hA, hB, decide_false, Bool.false_eq_true,
+          if_false]
         and_intros <;> trivial
 
-/-- the state after the callers' loop, family by family -/
+/-- the state after the callers' loop, family by family: the slice is what the sampling leaves of
+the positive-weight candidates, the counter counts the candidates of any weight -/
 theorem run_spec (m : Int) (cands : List (Cand κ α)) :
     (run m cands).v4 = runFam m (candsOf typeA cands) ∧
     (run m cands).v6 = runFam m (candsOf typeAAAA cands) ∧
-    (run m cands).v4Count = (candsOf typeA cands).length % 4294967296 ∧
-    (run m cands).v6Count = (candsOf typeAAAA cands).length % 4294967296 := by
+    (run m cands).v4Count = (seenOf typeA cands).length % 4294967296 ∧
+    (run m cands).v6Count = (seenOf typeAAAA cands).length % 4294967296 := by
   obtain ⟨_, i2, i3, i4, i5⟩ := foldl_stepC cands ({ maxAnswers := m } : State κ α) (by simp) (by simp)
   rw [run_eq]
   refine ⟨i2, i3, ?_, ?_⟩
